@@ -66,16 +66,28 @@ def apply_rewrites(rng: random.Random, s2: G.Schema, tag: str) -> Tuple[G.Schema
         if kind == "rename":
             k = [0]
 
-            def ren(d):
+            POOL = ["Inner", "Deep", "Core", "Leaf", "Tiny"]
+
+            def depth_of(d) -> int:
+                n = 0
+                while getattr(d, "parent", None) is not None:
+                    d = d.parent
+                    n += 1
+                return n
+
+            def ren(d, idx=0):
                 k[0] += 1
+                nested = getattr(d, "parent", None) is not None
                 if isinstance(d, G.MsgDef):
-                    d.name = f"Rn{tag}M{chr(65 + k[0] % 26)}{chr(97 + k[0] // 26 % 26)}x"
-                    for n in d.nested:
-                        ren(n)
+                    # nested definitions get names from a small per-scope pool: the SAME simple name then occurs in
+                    # different enclosing scopes (legal; only uniqueness per scope is required)
+                    d.name = f"{POOL[min(depth_of(d), 5) - 1]}{chr(65 + idx)}" if nested else f"Rn{tag}M{chr(65 + k[0] % 26)}{chr(97 + k[0] // 26 % 26)}x"
+                    for i2, n in enumerate(d.nested):
+                        ren(n, i2)
                     for i, f in enumerate(d.fields):
                         f.name = f"renamed_{chr(97 + i % 26)}{chr(97 + i // 26 % 26)}"
                 elif isinstance(d, G.EnumDef):
-                    d.name = f"Rn{tag}E{chr(65 + k[0] % 26)}{chr(97 + k[0] // 26 % 26)}x"
+                    d.name = f"{POOL[min(depth_of(d), 5) - 1]}{chr(65 + idx)}" if nested else f"Rn{tag}E{chr(65 + k[0] % 26)}{chr(97 + k[0] // 26 % 26)}x"
                     d.members = [(f"RN{tag.upper()}_E{k[0]}_{chr(65 + i)}".replace("0", "Z").replace("1", "O"), v) for i, (_, v) in enumerate(d.members)]
                     d.members = [("".join(c if not c.isdigit() else "QRSTUVWXYZ"[int(c)] for c in n), v) for n, v in d.members]
                 elif isinstance(d, G.AliasDef):
@@ -135,6 +147,7 @@ def apply_rewrites(rng: random.Random, s2: G.Schema, tag: str) -> Tuple[G.Schema
                 m, n = rng.choice(cands)
                 m.nested.remove(n)
                 n.parent = None
+                n.name = f"Un{tag}{chr(65 + rng.randrange(26))}{chr(97 + rng.randrange(26))}{chr(97 + rng.randrange(26))}q"
                 s2.defs.insert(s2.defs.index(top_of(m)), n)
                 applied.append(kind)
         elif kind == "to-import" and not s2.imports:
@@ -155,7 +168,10 @@ def apply_rewrites(rng: random.Random, s2: G.Schema, tag: str) -> Tuple[G.Schema
                 cname = f"CAP_{tag.upper()}_{chr(65 + rng.randrange(26))}{chr(65 + rng.randrange(26))}".replace("0", "Z").replace("1", "O")
                 cname = "".join(c if not c.isdigit() else "QRSTUVWXYZ"[int(c)] for c in cname)
                 x = rng.randint(0, 5)
-                expr = rng.choice([f"{a.cap + x} - {x}", f"({a.cap} * 2) / 2", f"{a.cap} + 0 * 7", f"0x{a.cap:x}"])
+                nb, nc = rng.randint(2, 9), rng.choice([2, 3, 4])
+                q = -((1 - nb) // nc)  # floor division of a negative, non-exact dividend
+                expr = rng.choice([f"{a.cap + x} - {x}", f"({a.cap} * 2) / 2", f"{a.cap} + 0 * 7", f"0x{a.cap:x}",
+                                   f"{a.cap + q} + (1 - {nb}) / {nc}"])
                 if not any(getattr(d, "name", None) == cname for d in s2.defs):
                     cd = G.ConstDef(cname, a.cap, expr)
                     cd.home = s2
@@ -165,7 +181,7 @@ def apply_rewrites(rng: random.Random, s2: G.Schema, tag: str) -> Tuple[G.Schema
         elif kind == "renumber":
             for m in msgs:
                 if m.fields:
-                    new = sorted(rng.sample(range(1, 256), len(m.fields)))
+                    new = sorted(rng.sample(range(1, 256), len(m.fields))) if rng.random() < 0.5 else list(range(1, len(m.fields) + 1))
                     for f, n in zip(sorted(m.fields, key=lambda f: f.num), new):
                         f.num = n
             applied.append(kind)
